@@ -288,6 +288,163 @@ fn power_case() -> impl Strategy<Value = PowerCase> {
 	})
 }
 
+/// A process is killed (its unsynced log bytes stay in the page cache), a second process opens
+/// the directory and replays the logs, and the power fails while or after it does so. The
+/// tracker carries the durable copies over from the first process to the second.
+#[derive(Clone, Debug, Serialize, Deserialize)]
+pub struct AfterKillCase {
+	pub sc: Scenario,
+	/// the first process is killed after this op (selector)
+	pub kill_at: u16,
+	pub sample_seed: u64,
+}
+
+pub fn run_after_kill_case(case: &AfterKillCase, dir: &Path) -> CaseResult {
+	let mut out = CaseOut::default();
+	if !iotrack_available() {
+		fail!("harness-io", "C12 must run inside the pdbv_io binary (syscall interposers missing)")
+	}
+	let sc = &case.sc;
+	let work = dir.join("work");
+	let shadow = dir.join("shadow");
+	let work2 = dir.join("work2");
+	let shadow2 = dir.join("shadow2");
+	for d in [&work, &shadow, &work2, &shadow2] {
+		let _ = std::fs::remove_dir_all(d);
+	}
+	std::fs::create_dir_all(&work).map_err(|e| Failure::new("harness-io", e.to_string()))?;
+	let k = 1 + pick(case.kill_at, sc.ops.len());
+	iotrack::start(&work, &shadow, false);
+	let r = (|| -> Res<ImageInfo> {
+		let mut it = Interp::new(&sc.cfg, &work, Interp::universe_of(sc));
+		it.keep_prefix = true;
+		it.check_every_op = false;
+		it.open()?;
+		for op in sc.ops.iter().take(k) {
+			it.step(op)?;
+		}
+		let info = ImageInfo {
+			faulted: true,
+			committed: it.committed,
+			synced: it.stages.synced,
+			cleaned: it.stages.cleaned,
+			cleaned_or_enacted: it.stages.cleaned + it.stages.enacted.len(),
+			last_enacted_record: 0,
+			had_log: true,
+			cut_inside: false,
+			prefix: it.prefix.clone(),
+			addr: it.addr.clone(),
+			universe: it.universe.clone(),
+			labels: Default::default(),
+		};
+		// the kill: what the next process sees is the directory as it is (page cache), what is
+		// durable is the tracker's copy
+		iotrack::paused(|| -> Res<()> {
+			copy_dir(&work, &work2).map_err(|e| Failure::new("harness-io", format!("copy: {e}")))?;
+			copy_dir(&shadow, &shadow2).map_err(|e| Failure::new("harness-io", format!("copy: {e}")))?;
+			Ok(())
+		})?;
+		let _ = iotrack::stop();
+		set_faults(0);
+		drop(it);
+		disarm();
+		Ok(info)
+	})();
+	let _ = iotrack::stop();
+	disarm();
+	let info = r?;
+	if info.committed > info.synced {
+		out.label("killed-with-unsynced-log-records");
+	}
+	// file operations of the recovering open
+	let probe = dir.join("probe");
+	let _ = std::fs::remove_dir_all(&probe);
+	copy_dir(&work2, &probe).map_err(|e| Failure::new("harness-io", format!("copy: {e}")))?;
+	const BIG: usize = usize::MAX / 2;
+	let total = guarded(|| -> Res<usize> {
+		let mut it = Interp::new(&sc.cfg, &probe, info.universe.clone());
+		it.check_every_op = false;
+		set_faults(BIG);
+		let r = it.open();
+		let used = BIG - remaining_faults();
+		disarm();
+		r?;
+		drop(it);
+		Ok(used)
+	})?;
+	let _ = std::fs::remove_dir_all(&probe);
+	let mut rng = case.sample_seed;
+	let mut points: Vec<usize> = (0..=total).collect();
+	let cap = 10;
+	if points.len() > cap {
+		for i in 0..cap {
+			rng = splitmix(rng);
+			let j = i + (rng as usize) % (points.len() - i);
+			points.swap(i, j);
+		}
+		points.truncate(cap - 1);
+		points.push(total); // the instant after the open returned
+	}
+	let sp0 = StopPoint { op: 0, n: 0, cut: None, recover_n: vec![] };
+	for n in points {
+		let w = dir.join("w");
+		let s = dir.join("s");
+		for d in [&w, &s] {
+			let _ = std::fs::remove_dir_all(d);
+		}
+		copy_dir(&work2, &w).map_err(|e| Failure::new("harness-io", format!("copy: {e}")))?;
+		copy_dir(&shadow2, &s).map_err(|e| Failure::new("harness-io", format!("copy: {e}")))?;
+		iotrack::start_keep(&w, &s, false);
+		let mut images = Vec::new();
+		let r = guarded(|| -> Res<()> {
+			let mut it = Interp::new(&sc.cfg, &w, info.universe.clone());
+			it.check_every_op = false;
+			it.fault_armed = true;
+			set_faults(n);
+			let r = it.open();
+			set_faults(0);
+			if let Err(f) = r {
+				disarm();
+				return Err(f)
+			}
+			iotrack::paused(|| -> Res<()> {
+				for i in 0..3u64 {
+					rng = splitmix(rng);
+					let img = dir.join(format!("kimg{i}"));
+					let mode = (rng % 4) as u8; // 0 none, 1 all, 2-3 random
+					let (kept, dropped, _) = build_power_image(&w, &s, &img, rng, mode, true).map_err(|e| Failure::new("harness-io", format!("power image: {e}")))?;
+					images.push((img, rng, kept, dropped));
+				}
+				Ok(())
+			})?;
+			drop(it);
+			disarm();
+			Ok(())
+		});
+		let _ = iotrack::stop();
+		disarm();
+		r?;
+		for (img, seed, kept, dropped) in images {
+			recover_and_check(sc, &info, &sp0, &img, dir, info.synced).map_err(|f| {
+				Failure::new(
+					format!("power-loss-after-kill:{}", f.sig),
+					format!("process killed after op {k} ({} committed, {} synced); a second process opened the directory and the power failed at file operation {n} of {total} of that open (image seed {seed}, {kept} dirty pages kept / {dropped} dropped): {}", info.committed, info.synced, f.detail),
+				)
+			})?;
+			out.sub_evals += 1;
+			if kept > 0 && dropped > 0 {
+				out.sub_nontrivial += 1;
+			}
+			let _ = std::fs::remove_dir_all(&img);
+			for d in 0..3 {
+				let _ = std::fs::remove_dir_all(dir.join(format!("rec{d}")));
+			}
+		}
+	}
+	out.nontrivial = out.labels.contains("killed-with-unsynced-log-records");
+	Ok(out)
+}
+
 /// Power loss while the REAL worker threads run (always_flush, so that records are applied and
 /// log files reclaimed while the client is still committing). Images are taken inside the
 /// interposed calls (see `iotrack::SnapCfg`); the oracle needs no knowledge of the schedule:
@@ -454,12 +611,30 @@ fn run(ctx: &Ctx) {
 	if !ctx.run_prop_shrink("power", n, 40, power_case(), |c, dir| run_power_case(c, dir, if thorough { 120 } else { 30 }, 3)) {
 		return
 	}
+	let n = scaled(ctx, 160, 6_000);
+	if !ctx.run_prop_shrink(
+		"power-after-kill",
+		n,
+		20,
+		(crash_scenario(3, 4, 12, true, 40_000), any::<u16>(), any::<u64>()).prop_map(|(mut sc, kill_at, sample_seed)| {
+			sc.cfg.sync_data = true;
+			AfterKillCase { sc, kill_at, sample_seed }
+		}),
+		run_after_kill_case,
+	) {
+		return
+	}
 	let n = scaled(ctx, 96, 6_000);
 	ctx.run_prop_shrink("power-threads", n, 12, thread_case(), |c, dir| guarded(|| run_thread_case(c, dir)));
 }
 
 fn replay(ctx: &Ctx, path: &Path) -> Result<(), Failure> {
 	let v: serde_json::Value = serde_json::from_str(&std::fs::read_to_string(path).map_err(|e| Failure::new("bad-replay", e.to_string()))?).map_err(|e| Failure::new("bad-replay", e.to_string()))?;
+	if v.get("sub").and_then(|s| s.as_str()) == Some("power-after-kill") {
+		let (_sub, c): (String, AfterKillCase) = load_replay(path).map_err(|e| Failure::new("bad-replay", e))?;
+		let dir = ctx.case_dir();
+		return guarded(|| run_after_kill_case(&c, &dir)).map(|_| ())
+	}
 	if v.get("sub").and_then(|s| s.as_str()) == Some("power-threads") {
 		let (_sub, c): (String, ThreadCase) = load_replay(path).map_err(|e| Failure::new("bad-replay", e))?;
 		let dir = ctx.case_dir();
